@@ -13,7 +13,10 @@ A third, oracle-only stream runs the whole tool (Acelyzer API) on generated FLEX
 phases of a device job (DmaI / Cmpt Prep / Cmpt Exec / DmaO slices, each reported by the host over its own phase, 1-2
 ranks in separate files) with names as data (text after a DMA keyword), arbitrary TS1..TS5 layouts, phases below the
 0.1 us cut-off inside long TS1..TS5 spans and zero readings; there the counter must sit at the absolute host time of
-TS4.
+TS4. The same ranks also carry "other" device slices (TS1..TS5 + Power, a name with none of the four phase keywords:
+FLEX activities that are neither DMA nor compute, collectives, plain names), reported by the host over their whole
+TS1..TS5 span, on the lane of the phases or on their own; every phase scenario is additionally driven at stage
+level (the registered tighten_hts_by_instr_type + power block on the real EventProcessor, same oracle).
 Options the result may not depend on: the log level (-D 0..4) is drawn per case in all three streams (the model has
 no such input, so a dependence shows in the tie as well as in the oracle). Size: long series (2500..6000 samples of a
 rank, most on its first lane, a few on further lanes that are early / anywhere / late in time) go through the
@@ -79,6 +82,9 @@ ASSUMPTIONS = [
     "end to end: the phase of a device slice is the keyword its name contains (' DmaI', ' Cmpt Prep', ' Cmpt Exec', "
     "' DmaO'); text may follow a DMA keyword, a name with ' Cmpt Exec' / ' Cmpt Prep' in the middle is outside the "
     "tool's name domain (DESIGN 8.7); the host reports a slice over its own phase, consistently with the counter",
+    "end to end: a device slice whose name has none of the four keywords is reported by the host over TS1..TS5 (its "
+    "start at TS1); names on which event_categorizer aborts for a device slice ('Flex RoundTrip', 'PrepareAndSyncRdma', "
+    "'DmaIn ...', 'Cmpt Execute ...': 'Flex and generic classificaton diff') are outside the tool's name domain",
 ]
 
 W32 = 2 ** 32
@@ -112,15 +118,18 @@ def quiet():
 LOGLEVELS = [0, 1, 2, 3, 4]             # -D: ERROR, WARNING, INFO (the CLI default), DEBUG, TRACE
 
 
-def registered_power_stages(skip, loglevel=0):
+def registered_power_stages(skip, loglevel=0, freq=None):
     """(callback, context, kwargs) of everything the real registration puts from extract_power_event up to and
     including compute_power, with fresh contexts. The log level is the one of the run (-D): it is an option the
-    Power counter may not depend on, so the model has no such input."""
+    Power counter may not depend on, so the model has no such input. With `freq` (--freq) the registered stage that
+    writes the wall-clock times of TS1..TS5 (args.ts_all, tighten_hts_by_instr_type) is put in front."""
     from aiu_trace_analyzer.core.acelyzer import Acelyzer
     import aiu_trace_analyzer.logger as aiulog
     argv = ["-i", "/nonexistent/c10.json", "-o", "/nonexistent/c10_out.json", "-D", str(loglevel)]
     if skip:
         argv.append("--skip_events")
+    if freq is not None:
+        argv += ["--freq", str(freq)]
     a = Acelyzer(argv)
     aiulog.loglevel = loglevel          # (what Acelyzer.__init__ does with -D; stated here for the stage-level drive)
     r = _Rec()
@@ -129,6 +138,11 @@ def registered_power_stages(skip, loglevel=0):
     i0, i1 = names.index("extract_power_event"), names.index("compute_power")
     if i1 < i0:
         raise RuntimeError("compute_power registered before extract_power_event")
+    if freq is not None:
+        it = names.index("tighten_hts_by_instr_type")
+        if it > i0:
+            raise RuntimeError("tighten_hts_by_instr_type registered after extract_power_event")
+        return [r.stages[it]] + r.stages[i0:i1 + 1]
     return r.stages[i0:i1 + 1]
 
 
@@ -192,10 +206,13 @@ def _reset_loglevel():
 
 
 def _run_pipeline(skip, slices, loglevel=0):
+    return _drive(registered_power_stages(skip, loglevel), [slice_event(s) for s in slices])
+
+
+def _drive(stages, events):
     import aiu_trace_analyzer.core.processing as processing
     import aiu_trace_analyzer.core.engine as engine
     from aiu_trace_analyzer.core.stage_profile import StageProfile
-    stages = registered_power_stages(skip, loglevel)
     out = []
 
     def c10_tap(event, _ctx):
@@ -214,9 +231,40 @@ def _run_pipeline(skip, slices, loglevel=0):
 
         def flush(self):
             pass
-    rc = engine.Engine([slice_event(s) for s in slices], proc, Exp()).run()
+    rc = engine.Engine(events, proc, Exp()).run()
     assert rc == 0
     return out
+
+
+def stage_slices(sc):
+    """the device slices of a phase scenario as the X events that reach the time-conversion stage: host start and
+    duration of the B/E pair, TS1..TS5 and Power as numbers in args; rank by rank"""
+    evs = []
+    for j, f in enumerate(sc["files"]):
+        for k, (b, e) in enumerate(zip(f[0::2], f[1::2])):
+            assert b["ph"] == "B" and e["ph"] == "E" and b["name"] == e["name"]
+            args = {key: int(v, 16) for key, v in b["attr"].items()}
+            args["uid"] = j * 100000 + k
+            evs.append({"ph": "X", "ts": b["ts"], "dur": e["ts"] - b["ts"], "pid": b["pid"], "tid": b["tid"],
+                        "name": b["name"], "args": args})
+    return evs
+
+
+def run_stage_phase(sc):
+    """stage-level drive of a phase scenario: the registered tighten_hts_by_instr_type + power block on the real
+    EventProcessor; returns ({pid: [(ts, watts)]}, error)"""
+    with quiet():
+        try:
+            out = _drive(registered_power_stages(False, sc.get("loglevel", 0), freq=sc["freq"]), stage_slices(sc))
+        except Exception as e:  # noqa: BLE001
+            return None, type(e).__name__ + ": " + str(e)[:200]
+        finally:
+            _reset_loglevel()
+    got = {}
+    for o in out:
+        if o[0] == 2:
+            got.setdefault(str(o[1]), []).append((o[2], o[3]))
+    return got, None
 
 
 def run_compute(skip, counters, loglevel=0):
@@ -825,7 +873,19 @@ def e2e_long_scenario(r, k, n, loglevel=0):
 
 
 # the four phases of a device job: (keyword of the name, TS index where the phase starts, where it ends)
-PHASES = {"DmaI": (" DmaI", 0, 1), "Prep": (" Cmpt Prep", 1, 2), "Exec": (" Cmpt Exec", 2, 3), "DmaO": (" DmaO", 3, 4)}
+PHASES = {"DmaI": (" DmaI", 0, 1), "Prep": (" Cmpt Prep", 1, 2), "Exec": (" Cmpt Exec", 2, 3), "DmaO": (" DmaO", 3, 4),
+          "Other": ("", 0, 4)}
+# "other" device slices: TS1..TS5 and a Power reading like every device slice, but a name without any of the four phase
+# keywords (device-side activities of the FLEX dialect that are neither DMA nor compute, collectives, plain names;
+# "Prep" / "Dma" / "Exec" may occur as text, not as the keyword). The host reports such a slice over its whole
+# TS1..TS5 span.
+# (Names on which the tool's event_categorizer aborts for a device slice - "Flex and generic classificaton diff":
+# 'Flex RoundTrip', 'PrepareAndSyncRdma', 'DmaIn weights', 'Cmpt Execute x' - are outside the tool's name domain and
+# not drawn; every name below runs through the whole tool.)
+OTHER_NAMES = ["LaunchPreloadScratchpad", "LaunchClearScratchpad", "scratchpad_preload", "Barrier1", "PostKeys",
+               "Update CBs", "Deadlock Check", "FixupAllocations", "PrepareDmas", "LaunchComputeStream",
+               "ScheduleCompute", "AllReduce_all_reduce", "conv", "k7", "tensor DtoF", "x DmaX", "üñî sync", "a  b",
+               "aten::add", "Exec"]
 NAME_HEADS = ["k3", "tensor_out", "weights", "scratch", "aten::add", "fused_mul-add.7", "layer3/attn", "conv2d(bias)",
               "x", "Prepare q", "req_12_x", "üñî", "a  b"]
 DMA_TAILS = [" (copy)", " [chunk 2]", "_1", ".bwd", " x", "-2", " #3", ":0", " 17", "/out", " → hbm"]
@@ -834,6 +894,9 @@ DMA_TAILS = [" (copy)", " [chunk 2]", "_1", ".bwd", " x", "-2", " #3", ":0", " 1
 def phase_name(r, kind, i):
     """names are data: anything in front of the phase keyword, and for the two DMA phases also behind it (a name with
     ' Cmpt Exec' / ' Cmpt Prep' in the middle is outside the name domain of the tool, DESIGN 8.7)"""
+    if kind == "Other":
+        name = r.choice(OTHER_NAMES)
+        return name if r.random() < 0.5 else f"{name} {i}"
     name = f"{r.choice(NAME_HEADS)}{i}" + PHASES[kind][0]
     if kind in ("DmaI", "DmaO") and r.random() < 0.6:
         name += r.choice(DMA_TAILS)
@@ -858,9 +921,9 @@ def phase_len(r, own):
 def e2e_name_kind(name):
     """(phase of a generated name, whether text follows the keyword) - for the distribution only"""
     for kind, (key, _, _) in PHASES.items():
-        if key in name:
+        if key and key in name:
             return kind, not name.endswith(key)
-    raise ValueError(name)
+    return "Other", False
 
 
 def e2e_phase_rank(r, pid, n):
@@ -875,10 +938,19 @@ def e2e_phase_rank(r, pid, n):
     if r.random() < 0.4:
         u = W32 - r.randint(1, 200000)
     evs, rows, cyc, prev4 = [], [], cyc0 + r.randint(0, 5000), None
+    other_lane = r.random() < 0.5                # "other" device slices on the lane of the phases or on their own
     for i in range(n):
-        kind = r.choice(["Exec", "Exec", "DmaI", "DmaI", "DmaO", "DmaO", "DmaO", "Prep"])
+        kind = r.choice(["Exec", "Exec", "DmaI", "DmaI", "DmaO", "DmaO", "DmaO", "Prep", "Other", "Other"])
         _, a, b = PHASES[kind]
         d = [phase_len(r, own=(j == a)) for j in range(4)]
+        if kind == "Other":                      # the slice is its whole TS1..TS5 span: any layout, also around the cut-off
+            d = [phase_len(r, own=False) for j in range(4)]
+            if r.random() < 0.2:
+                tot, d = r.choice([r.randint(1, 101), 102, 103, 104]), [0, 0, 0, 0]
+                for _ in range(tot):
+                    d[r.randrange(4)] += 1
+            elif sum(d) == 0:
+                d[r.randrange(4)] = r.randint(104, 40000)
         ts = [cyc + sum(d[:j]) for j in range(5)]
         if prev4 is not None:
             u += r.randint(0, int(4000 * (ts[3] - prev4) / freq))
@@ -889,10 +961,11 @@ def e2e_phase_rank(r, pid, n):
         if r.random() < 0.06:
             q = 0                                # no reading
         name = phase_name(r, kind, i)
+        tid = 78 if kind == "Other" and other_lane else 77
         attr = {"Power": hex(q)}
         attr.update({f"TS{j + 1}": hex(ts[j] % W32) for j in range(5)})
         for ph, c in (("B", ts[a]), ("E", ts[b])):
-            evs.append({"attr": dict(attr), "name": name, "ph": ph, "pid": pid, "tid": 77,
+            evs.append({"attr": dict(attr), "name": name, "ph": ph, "pid": pid, "tid": tid,
                         "ts": host0 + (c - cyc0) / freq})
         # the property text: a sample per device slice that is no Prep slice and not below the 0.1 us cut-off
         rows.append((ts[3], q, kind != "Prep" and Fraction(ts[b] - ts[a]) / Fraction(freq) > Fraction(1, 10)))
@@ -1034,6 +1107,7 @@ def run(ctx):
             "exhaustive_compute_sequences": n_exh, "loglevel": {}, "clamped_at_debug_or_trace": 0, "long_series": [],
             "end_to_end_loglevel": {}, "end_to_end_long": [],
             "end_to_end_phase_slices": {"scenarios": 0, "two_ranks": 0, "DmaI": 0, "Prep": 0, "Exec": 0, "DmaO": 0,
+                                        "Other": 0, "other_single_rank_scenarios": 0,
                                         "dma_name_with_text_after_keyword": 0, "below_cutoff_inside_long_span": 0,
                                         "zero_reading": 0}}
     for case in cases:
@@ -1086,7 +1160,7 @@ def run(ctx):
             long_terms.append((coq_case(case), enc.V(out)))
             long_tied.append(case)
     # end to end (oracle only)
-    n_e2e, e2e_err = 0, {}
+    n_e2e, e2e_err, n_stage = 0, {}, 0
     work = tempfile.mkdtemp(prefix="c10_", dir=ctx.work)
     try:
         r2 = random.Random(ctx.seed * 7919 + 17)
@@ -1104,6 +1178,8 @@ def run(ctx):
                 ph = dist["end_to_end_phase_slices"]
                 ph["scenarios"] += 1
                 ph["two_ranks"] += int(len(sc["files"]) > 1)
+                ph["other_single_rank_scenarios"] += int(len(sc["files"]) == 1 and any(
+                    e2e_name_kind(e["name"])[0] == "Other" for e in sc["files"][0]))
                 for evs in sc["files"]:
                     for e in evs:
                         if e["ph"] == "B":
@@ -1124,10 +1200,17 @@ def run(ctx):
                 continue
             for f in oracle_e2e(sc, got)[:1]:
                 failures.append({"input": {"mode": 2, "scenario": strip(sc)}, "signature": f})
+            if "ranks" in sc:                            # the same slices through the registered stages alone
+                got, err = run_stage_phase(sc)
+                n_stage += 1
+                fs = [{"kind": "stage_run_failed", "error": err[:60]}] if err else oracle_e2e(sc, got)
+                for f in fs[:1]:
+                    failures.append({"input": {"mode": 3, "scenario": strip(sc)}, "signature": dict(f, stage_level=True)})
     finally:
         shutil.rmtree(work, ignore_errors=True)
     dist["end_to_end_runs"] = n_e2e
     dist["end_to_end_errors"] = e2e_err
+    dist["stage_level_phase_scenarios"] = n_stage
 
     from concurrent.futures import ThreadPoolExecutor
     with ThreadPoolExecutor(max_workers=2) as ex:       # (coqc subprocesses: the long series evaluate alongside)
@@ -1155,14 +1238,16 @@ def run(ctx):
                 f"{ctx.pick(1, 4)} also through the model); the log level 0..4 is drawn per case; end-to-end runs "
                 "(log level 0..4, some with 2500..6000 kernels on one lane and further lanes, some with 1-2 ranks of "
                 "DmaI / Cmpt Prep / Cmpt Exec / DmaO slices whose DMA names carry text after the keyword, phases "
-                "below the cut-off inside long TS1..TS5 spans, zero readings) are counted in evaluations only",
+                "below the cut-off inside long TS1..TS5 spans, zero readings, and device slices without a phase "
+                "keyword in the name; each of these also through the registered time-conversion + power stages) are "
+                "counted in evaluations only",
         "samples": samples, "mismatches": mism, "oracle_failures": oracle_failures,
         "ties": [{"name": "Power.model_val = registered power stages on the real EventProcessor / compute_power alone",
                   "cases": len(cases), "mismatching": len(bad), "coq_seconds": round(secs, 1)},
                  {"name": "Power.model_val = registered power stages, long series (>= 2500 samples, several lanes)",
                   "cases": len(long_terms), "mismatching": len(bad_l), "coq_seconds": round(secs_l, 1)},
                  {"name": "oracle-only streams", "offgrid_cases": len(off), "long_series": len(long_cases),
-                  "end_to_end_runs": n_e2e}],
+                  "end_to_end_runs": n_e2e, "stage_level_phase_scenarios": n_stage}],
         "distribution": dist, "exhaustive": True,
         "traces_validated_against_impl": len(cases) + len(off) + len(long_cases) + n_e2e,
     }
@@ -1172,6 +1257,10 @@ def run(ctx):
 def case_fails(case):
     if case.get("mode") == 2:
         return e2e_fails(case)
+    if case.get("mode") == 3:
+        got, err = run_stage_phase(case["scenario"])
+        fs = [{"kind": "stage_run_failed", "error": err[:60]}] if err else oracle_e2e(case["scenario"], got)
+        return dict(fs[0], stage_level=True) if fs else None
     out = run_case(case)
     fs = oracle(case, out)
     return fs[0] if fs else None
@@ -1191,7 +1280,7 @@ def e2e_fails(case):
 
 def shrink(f):
     case = copy.deepcopy(f["input"])
-    if case.get("mode") == 2:
+    if case.get("mode") in (2, 3):
         return f
     key = "slices" if case["mode"] == 0 else "counters"
     kind = f["signature"]["kind"]
@@ -1220,7 +1309,7 @@ def shrink(f):
 def finish(f):
     """add expected / observed to a (shrunk) failure"""
     case = f["input"]
-    if case.get("mode") == 2:
+    if case.get("mode") in (2, 3):
         f["expected"] = "n-1 Power counters with P*dt = 12/512*dQ mod 2^32"
         f["observed"] = f["signature"]
         return f
